@@ -681,6 +681,9 @@ def mon_c11(case, obs, prefix):
         d = o["dump"]
         sends = o["sends"] or []
         lid = None
+        if ev["t"] == "setseq":
+            nxt[(ev["seid"], ev["urr"])] = ev["v"]      # the harness positioned the counter (C11 counter phase)
+            continue
         if ev["t"] == "report":
             lid = ev["seid"]
             carriers = [x for x in sends if x["type"] == "srreq" and x["dldr"] < 0]
@@ -977,7 +980,18 @@ def directed_c05(rnd):
         _rc(0, 2, {"k": "est", "nid": {"v": 0}, "fseid": {"v": 10}, "ops": {"cFAR": [1]}}),
         _rc(1, 2, {"k": "est", "nid": {"v": 1}, "fseid": {"v": 20}, "ops": {"cFAR": [1]}}),
         _rc(1, 3, {"k": "mod", "seid": 1, "nid": {"v": 1}, "ops": {}}),
-        _rc(1, 4, {"k": "asr", "nid": {"v": 1}})]}] + [
+        _rc(1, 4, {"k": "asr", "nid": {"v": 1}})]},
+        # the same takeover, then the PREVIOUS owner re-associates: the session it lost must stay (it is B's now), and a
+        # later re-association of B removes both of B's sessions
+        {"maxretrans": 1, "txseq0": 0, "events": [
+        _rc(0, 1, {"k": "asr", "nid": {"v": 0}}), _rc(1, 1, {"k": "asr", "nid": {"v": 1}}),
+        _rc(0, 2, {"k": "est", "nid": {"v": 0}, "fseid": {"v": 10}, "ops": {"cFAR": [1]}}),
+        _rc(1, 2, {"k": "est", "nid": {"v": 1}, "fseid": {"v": 20}, "ops": {"cFAR": [1]}}),
+        _rc(0, 3, {"k": "est", "nid": {"v": 0}, "fseid": {"v": 11}, "ops": {"cFAR": [2]}}),
+        _rc(1, 3, {"k": "mod", "seid": 1, "nid": {"v": 1}, "ops": {}}),
+        _rc(0, 4, {"k": "asr", "nid": {"v": 0}}),
+        _rc(1, 4, {"k": "mod", "seid": 1, "nid": {"absent": True}, "ops": {"cFAR": [7]}}),
+        _rc(1, 5, {"k": "asr", "nid": {"v": 1}})]}] + [
         # two nodes using the SAME control-plane SEID; the report of the session with the HIGHER user-plane SEID is answered
         # with header SEID 0 by its own peer: exactly that session goes, its twin under the other node stays
         {"maxretrans": 1, "txseq0": 0, "events": [
@@ -1023,6 +1037,16 @@ def directed_c10(rnd):
                 _usa(1, 1, 8)]},
             {"maxretrans": 0, "txseq0": 0, "events": est + [
                 _rc(0, 3, {"k": "mod", "seid": 1, "nid": {"absent": True}, "ops": {"rURR": [1]}}, usage=[final]),
+                _usa(1, 1, 6), _usa(1, 2, 7)]},
+            # takeover by a node id that has no association of its own (the session's node is re-keyed): reports go to
+            # the new owner from then on; and by one that has (the session moves)
+            {"maxretrans": 0, "txseq0": 0, "events": est + [
+                _usa(1, 1, 5),
+                _rc(0, 3, {"k": "mod", "seid": 1, "nid": {"v": 1}, "ops": {}}),
+                _usa(1, 1, 6), _usa(1, 2, 7)]},
+            {"maxretrans": 0, "txseq0": 0, "events": est + [
+                _rc(2, 1, {"k": "asr", "nid": {"v": 2}}),
+                _rc(2, 2, {"k": "mod", "seid": 1, "nid": {"v": 2}, "ops": {}}),
                 _usa(1, 1, 6), _usa(1, 2, 7)]}]
 
 
@@ -1034,6 +1058,18 @@ def directed_c11(rnd):
         _usa(1, 1, 5), _usa(1, 1, 6),
         _rc(0, 3, {"k": "mod", "seid": 1, "nid": {"absent": True}, "ops": {"cURR": [{"id": 1, "method": 2, "info": 0}]}}),
         _usa(1, 1, 7)]}]
+
+
+def directed_c11b(rnd):
+    """a URR the session holds although its installation failed (so that the data plane ACCEPTS the second Create URR):
+    the running counter goes on"""
+    return [{"maxretrans": 0, "txseq0": 0, "events": [
+        _rc(0, 1, {"k": "asr", "nid": {"v": 0}}),
+        dict(_rc(0, 2, {"k": "est", "nid": {"v": 0}, "fseid": {"v": 10}, "ops": {"cURR": [{"id": 1, "method": 2, "info": 0}]}}),
+             fail=[{"op": "create", "kind": "urr", "id": 1}]),
+        _usa(1, 1, 5), _usa(1, 1, 6),
+        _rc(0, 3, {"k": "mod", "seid": 1, "nid": {"absent": True}, "ops": {"cURR": [{"id": 1, "method": 2, "info": 0}]}}),
+        _usa(1, 1, 7), _usa(1, 1, 8)]}]
 
 
 def directed_c12(rnd):
